@@ -1,7 +1,8 @@
 (** Correspondence cases for C20: kernels on binary64 with the recorded libm table.
-    The matrix forms are checked TWICE against the implementation's outcome: against the net entry formula
-    ([rbf_matrix] / [rq_matrix], the object of the real-carrier theorems) and against the composition of the verified
-    component models in the order the Rust code calls them ([Model/KernelsPlumbing.v]; the two are proved equal in
+    The matrix forms are checked TWICE against the implementation's outcome: against the matrix of the SCALAR form
+    ([rbf_matrix] / [rq_matrix]: the repaired matrix form equals the scalar form bit for bit, entry by entry) and against
+    the composition of the verified component models in the order the Rust code calls them ([Model/KernelsPlumbing.v]:
+    reshape to a column / a row, assertion on the sizes, broadcast difference, powi, ...; the two are proved equal in
     Proofs/C20_plumbing.v).  The [CRbfP] / [CRqP] cases (any Matrix shape, empty point sets) run the composition only. *)
 From Coq Require Import List Floats ZArith Bool.
 From Compute Require Export Base.Ops Model.Kernels.
